@@ -1206,6 +1206,8 @@ diskdump_cleanup(struct kdump_shared *shared)
 			if (pdmap->regions)
 				free(pdmap->regions);
 		}
+		if (ddp->mem_pagemap.regions)
+			free(ddp->mem_pagemap.regions);
 		free(ddp);
 		shared->fmtdata = NULL;
 	}
